@@ -32,6 +32,9 @@ def cases(tier, seed):
         if cfg["env"] in ("flp", "mcp") and cfg["k"] > 1:
             for r in range(reps // 2):
                 out.append(dict(kind="other", cfg=cfg, family="mixed_quota", B=16, s=rnd.randrange(10**6)))
+        if cfg["env"] == "flp" and cfg["k"] > 1 and cfg["n"] <= 40 and not cfg.get("dist"):
+            for r in range(reps // 2):
+                out.append(dict(kind="other", cfg=cfg, family="coincident", B=16, s=rnd.randrange(10**6)))
         if cfg["env"] == "mdpp" or (cfg["env"] == "mcp" and cfg["items"] <= 40):
             for r in range(reps // 2):
                 out.append(dict(kind="other", cfg=cfg, family="handbuilt", B=16, s=rnd.randrange(10**6)))
